@@ -177,8 +177,19 @@ func (g *c04gen) goTypedInt(hs HSpec, v *big.Int) {
 		}
 		// float64 when exactly representable
 		f := float64(i)
-		if canonDenotes(ld.GetCanonicalDouble(f), v) {
-			emit(f, J{"k": "f64", "canon": ld.GetCanonicalDouble(f)}, "float64")
+		if f < 9.2e18 && f > -9.2e18 && int64(f) == i {
+			// the float64 is exactly this integer (whatever its 16-digit canonical double shows)
+			emit(f, f64J(f), "float64")
+		} else if f < 9.2e18 && f > -9.2e18 {
+			// the nearest float64 is another integer: that integer is what the value means
+			i2 := big.NewInt(int64(f))
+			var want2 any = "err"
+			if i2.Cmp(lo) >= 0 && i2.Cmp(hi) <= 0 {
+				want2 = stmtEncInt(i2, hs.Prime)
+			}
+			impl := implHash(hs.H, full, f)
+			g.out.Emit(Case{Op: "xsd.hash", In: J{"h": hs.JSON, "dt": full, "val": f64J(f)}, Impl: impl, Prop: judge(impl, want2),
+				Tags: []string{"dt:" + dt, "h:" + hs.Name, "go:float64", "float64-rounded"}, NT: true})
 		}
 	}
 	emit(v.String(), J{"k": "str", "v": v.String()}, "string")
